@@ -76,8 +76,15 @@ enum { E_NAIVE, E_M4RI, E_PLUQ, E_HYBRID, E__M4RI, E_TOP, E_NOPS };
 static void elim_case(const vh_args_t *a, int op) {
   int m = alg_dim(a), n = alg_dim(a);
   if (a->tier == 0 && (long)m * n > 260L * 200) { if (m > n) m = m / 2 + 1; else n = n / 2 + 1; }
+  int wide = vh_randint(0, 9) == 0;
+  if (wide) {
+    /* short and wide: the number of words from the current block to the end of the row takes every residue mod 8
+     * (the word loops of the row-processing routines are unrolled eight times) */
+    m = vh_randint(4, 40);
+    n = vh_pick((int[]){448, 512, 513, 576, 640, 960, 1024, 1088}, 8) - vh_pick((int[]){0, 0, 1, 37}, 4);
+  }
   mzd_t *A = vh_mk(m, n, -1);
-  vh_fill_profile(A, pick_style());
+  vh_fill_profile(A, wide ? vh_pick((int[]){1, 2, 3, 3, 6}, 5) : pick_style());
   int full = vh_randint(0, 1), k = vh_randint(0, 10);
   if (k == 9 || k == 10) k = vh_randint(0, 1) ? 0 : k; /* k up to 10 is admissible but allocates 6*2^k rows */
   vh_ev_t e;
@@ -219,7 +226,15 @@ static void junk_perm(mzp_t *P) {
 static void ple_case(const vh_args_t *a, int op, int big) {
   int bigshape = -1;
   int m = alg_dim(a), n = alg_dim(a);
-  if (big) {
+  if (big >= 100) {
+    /* "tiny" cache configuration (model binding only): shapes that enter the block recursion - one and two levels
+     * deep - yet are small enough for the model of the recursion to be evaluated on them by the trace validator */
+    static const int tm[] = {260, 300, 340, 270, 340, 330, 180, 200};
+    static const int tn[] = {65, 100, 140, 128, 129, 192, 200, 260};
+    int t = (big - 100) % 8;
+    bigshape = 3;
+    m = tm[t]; n = tn[t];
+  } else if (big) {
     /* shapes that enter the block-recursive algorithm in the small-cache configuration:
        ncols > 64 and width*nrows > __M4RI_PLE_CUTOFF */
     static const int bm[] = {70, 4200, 130, 2100, 1400, 140, 600, 200, 1030, 560};
@@ -268,6 +283,16 @@ int fam_ple(const vh_args_t *a) {
   int ncases = a->cases ? a->cases : (a->tier ? 4000 : 640);
   int nbig = a->tier ? 64 : 10;
   if (strstr(a->extra, "nobig")) nbig = 0;
+  if (strstr(a->extra, "tinyrec")) {
+    for (long idx = 0; idx < ncases; idx++) {
+      if (!VH_SHARD(a, idx)) continue;
+      vh_case_seed(a, idx);
+      VH_CASE(idx)
+      ple_case(a, (int)(idx % 4), 100 + (int)((idx / 4) % 8));
+      VH_CASE_END
+    }
+    return 0;
+  }
   for (long idx = strstr(a->extra, "onlybig") ? ncases : 0; idx < ncases + nbig; idx++) {
     if (!VH_SHARD(a, idx)) continue;
     vh_case_seed(a, idx);
@@ -292,6 +317,12 @@ static void trsm_case(const vh_args_t *a, int variant, int entry) {
   int n = NS[vh_randint(0, a->tier ? 16 : 13)], w = alg_dim(a);
   if (a->tier && vh_randint(0, 5) == 0) n = vh_pick((int[]){511, 512, 513, 520}, 4);
   if (a->tier == 0 && (long)n * w > 260L * 160) w = w / 3 + 1;
+  /* the recursive regime (n above __M4RI_MUL_BLOCKSIZE, 256 with the small cache sizes) with right-hand sides that are
+   * narrower and wider than the triangle (a square B hides a mix-up of the two dimensions) */
+  if (vh_randint(0, 7) == 0) {
+    n = vh_pick((int[]){257, 300, 321, 384}, 4);
+    w = vh_pick((int[]){1, 40, 64, 70, 130, 340, 400}, 7);
+  }
   int left = (variant == 2 || variant == 3);
   mzd_t *T = vh_mk(n, n, -1);
   fill_tri(T, variant == 0 || variant == 3);
@@ -353,6 +384,9 @@ static void inv_case(const vh_args_t *a, int op) {
   vh_ev_t e;
   mzd_t *R = NULL;
   int k = vh_randint(0, 8);
+  /* C05 quantifies over ALL k for the Four-Russians inversion (the argument is a hint): also values beyond the
+   * range in which the elimination itself accepts an explicit k */
+  if (op == 0 && vh_randint(0, 2) == 0) k = vh_pick((int[]){9, 10, 11, 12, 13, 16, 17, 24}, 8);
   if (op == 0 || op == 1) {
     mzd_t *A = vh_mk(n, n, -1);
     vh_fill_invertible(A);
